@@ -236,7 +236,7 @@ class Scenario:
         call_method(I, self.re, "register_command", "custom_async", native(custom_async))
         # A-RUNS: a plan opens at most `max_runs` runs per scenario (the ledger of opened runs is ghost state of C13)
         # (labels may carry a run key after '@', e.g. 'open_run@a': C14)
-        self.plan = Plan(eng, "plan", lambda p: [(m, ALPHABET[m]) for m in plan_msgs if not (m.split("@")[0] == "open_run" and len(eng.bundlers) >= max_runs)],
+        self.plan = Plan(eng, "plan", lambda p: [(m, ALPHABET[m]) for m in plan_msgs if not (m.split("@")[0].startswith("open_run") and len(eng.bundlers) >= max_runs)],
                          handles=handles, can_raise=can_raise)
         uncacheable = set(I.getattr(self.re, "_UNCACHEABLE_COMMANDS"))
         eng.replay_alphabet = lambda p: [(m, ALPHABET[m]) for m in plan_msgs if ALPHABET[m]().command not in uncacheable]
